@@ -68,15 +68,18 @@ func (ups *Packet) ConnectPacket(manager cert.TlsConfig, mustSecure bool, connec
 			salt = h.Sum(nil)
 		}
 	}
-	ups.Address.User = nil
+	// Connect runs again for every connection attempt, so the configured address keeps its credentials.
+	// Everything below works on a copy without them.
+	address := ups.Address
+	address.User = nil
 
-	n, err := ups.Address.Addr()
+	n, err := address.Addr()
 	if err != nil {
 		return errors.WithStack(err)
 	}
 
 	if secure {
-		log.Debugf("Starting AES-encrypted packet client to %s", ups.String())
+		log.Debugf("Starting AES-encrypted packet client to %s", address.String())
 
 		key := pbkdf2.Key(pass, salt, 1024, 64, sha256.New)
 		if b, err := kcp.NewAESBlockCrypt(key); err != nil {
@@ -85,30 +88,30 @@ func (ups *Packet) ConnectPacket(manager cert.TlsConfig, mustSecure bool, connec
 			block = b
 		}
 	} else {
-		log.Debugf("Starting plain packet client to %s", ups.String())
+		log.Debugf("Starting plain packet client to %s", address.String())
 	}
 
 	c, err := connectFunc(n, block)
 	if err != nil {
-		return errors.Wrapf(err, "Could not connect to %v", ups.Address)
+		return errors.Wrapf(err, "Could not connect to %v", address)
 	}
 
-	log.Debugf("[Client] Socket upstream connection established to %v", ups.Address.String())
+	log.Debugf("[Client] Socket upstream connection established to %v", address.String())
 
 	// Even if the packets are encrypted using AES symmetric cyper, let the server know we're open to StartTLS
 	// communication. Why? Because:
 	// - we can check certificates / hostnames
 	// - we can execute mutual (client-server) authentication
-	cc, err := socketace.NewClientConnection(c, manager, false, ups.Address.Hostname())
+	cc, err := socketace.NewClientConnection(c, manager, false, address.Hostname())
 	if err != nil {
 		return errors.Wrapf(err, "Could not open connection")
 	} else if mustSecure && !cc.Secure() {
-		return errors.Errorf("Could not establish a secure connection to %v", ups.Address)
+		return errors.Errorf("Could not establish a secure connection to %v", address)
 	} else {
 		stream = cc
 	}
 
-	ups.Connection = streams.NewNamedConnection(streams.NewNamedConnection(stream, ups.Address.String()), "socket")
+	ups.Connection = streams.NewNamedConnection(streams.NewNamedConnection(stream, address.String()), "socket")
 
 	return nil
 }
